@@ -476,6 +476,12 @@ void OnAlloc(const void* p, std::size_t n) {
   ClearRange(reinterpret_cast<std::uintptr_t>(p), reinterpret_cast<std::uintptr_t>(p) + n);
 }
 
+void OnRawAlloc(const void* p, std::size_t n) {
+  if (gActive) {
+    ClearRange(reinterpret_cast<std::uintptr_t>(p), reinterpret_cast<std::uintptr_t>(p) + n);
+  }
+}
+
 void OnFree(const void* p) {
   if (!gActive) {
     return;
